@@ -11,7 +11,8 @@ encoding of the log batch `lb` of the reference decoder (`Spec.C06.LBatch`). It 
   claims, a batch cut short inside holds a proper prefix of them;
 * v0/v1 message: a batch of one record; v0 has no timestamp (attribute bit 7 is how `kgo.RecordAttrs` says so);
 * compressed wrapper: the inner messages; v0 inner offsets are absolute, v1 inner offsets are relative and the
-  wrapper carries the absolute offset of the last inner message (rebasing by `wrapper − last inner`). -/
+  wrapper carries the absolute offset of the last inner message (rebasing by `wrapper − last inner`); a v1 wrapper
+  stamped LogAppendTime gives its timestamp and timestamp type to every inner message. -/
 namespace Proof.C06
 open Model.C06
 open Spec.C06 (LRec LBatch ORec Req)
@@ -66,19 +67,25 @@ structure RepSingle (m : Msg) (lb : LBatch) : Prop where
   records : lb.records = [msgRec m 0]
   present : lb.present = 1
 
-/-- the inner message as the loop sees it: `Attributes |= compression` -/
-def withCodec (codec : Nat) (i : Msg) : Msg := { i with attrs := i.attrs ||| codec }
+/-- the wrapper is a v1 message set stamped LogAppendTime (attribute bit 3; v0 has no timestamps) -/
+def wrapLat (m : Msg) : Bool := m.isV1 && decide (m.attrs / 8 % 2 = 1)
+
+/-- the inner message as the log format reads it inside its wrapper `m`: the wrapper's codec in the attributes, and — when the
+wrapper is stamped LogAppendTime — the wrapper's timestamp and timestamp type (the broker stamps the wrapper only) -/
+def innerView (m i : Msg) : Msg :=
+  if wrapLat m then { i with attrs := i.attrs ||| m.attrs % 4 ||| 8, ts := m.ts } else { i with attrs := i.attrs ||| m.attrs % 4 }
 
 /-- absolute offset of relative offset 0 of a wrapper: v0 inner offsets are absolute; v1: wrapper − last inner -/
 def wrapBase (m : Msg) (inner : Inner) : Int :=
   if m.isV1 then m.offset - (inner.msgs.getLast?.map (·.offset)).getD 0 else 0
 
 structure RepWrapper (m : Msg) (inner : Inner) (lb : LBatch) : Prop where
-  plain : m.attrs < 4                          -- only codec bits on the wrapper (CreateTime; see the note in Props/C06.lean)
+  plain : m.attrs < 16 ∧ m.attrs / 4 % 2 = 0   -- codec in bits 0-1 (none/gzip/snappy/lz4), bit 3 = timestamp type, nothing else
   decomp : inner.decompOk = true
   err : inner.err = none
   panic : inner.panic = false
-  valid : ∀ i ∈ inner.msgs, validMsg (withCodec (m.attrs % 4) i) ∧ msgAttrs (withCodec (m.attrs % 4) i) = lb.attrs
+  valid : ∀ i ∈ inner.msgs, validMsg (innerView m i) ∧ msgAttrs (innerView m i) = lb.attrs
+  latV1 : wrapLat m = true → ∀ i ∈ inner.msgs, i.isV1 = true   -- inner magic = wrapper magic (the wrapper's timestamp needs a v1 inner message)
   relNonneg : m.isV1 → ∀ i ∈ inner.msgs, 0 ≤ i.offset          -- relative offsets are not negative
   baseNonneg : 0 ≤ wrapBase m inner                             -- nor is the absolute offset of relative offset 0
   last : lb.last = m.offset
@@ -86,7 +93,7 @@ structure RepWrapper (m : Msg) (inner : Inner) (lb : LBatch) : Prop where
   pid : lb.pid = -1
   pepoch : lb.pepoch = -1
   lepoch : lb.lepoch = -1
-  records : lb.records = inner.msgs.map (fun i => msgRec i (wrapBase m inner))
+  records : lb.records = inner.msgs.map (fun i => msgRec (innerView m i) (wrapBase m inner))
   present : lb.present = inner.msgs.length
 
 /-- the decoded frame `it` is the encoding of the log batch `lb` -/
@@ -343,20 +350,29 @@ theorem processMessage_valid (o : Opts) (s : St) (m : Msg) (h : validMsg m) :
   unfold processMessage
   cases hv : m.isV1 <;> simp [hv] at h ⊢ <;> simp [h.1, h.2]
 
-theorem processInner_valid (o : Opts) (base : Int) (codec : Nat) : ∀ (ms : List Msg) (s : St),
-    (∀ i ∈ ms, validMsg (withCodec codec i)) →
-    processInner o base codec s ms =
-      keepAll o false s (ms.map fun i => msgToRecord { withCodec codec i with offset := i.offset + base }) := by
+theorem processInner_valid (o : Opts) (base : Int) (codec : Nat) (lat : Option Int) : ∀ (ms : List Msg) (s : St),
+    (∀ i ∈ ms, validMsg (innerSeen base codec lat i)) →
+    processInner o base codec lat s ms = keepAll o false s (ms.map fun i => msgToRecord (innerSeen base codec lat i)) := by
   intro ms
   induction ms with
   | nil => intro s _; simp [processInner, keepAll]
   | cons m ms ih =>
     intro s hv
     have hm := hv m (by simp)
-    have hm' : validMsg { m with offset := m.offset + base, attrs := m.attrs ||| codec } := by
-      unfold validMsg withCodec at hm; unfold validMsg; exact hm
     unfold processInner
-    simp only [processMessage_valid o s _ hm', if_true, List.map_cons, keepAll]
+    simp only [processMessage_valid o s _ hm, if_true, List.map_cons, keepAll]
     exact ih _ (fun i hi => hv i (by simp [hi]))
+
+/-- under the format's reading of the wrapper, the message the loop sees is the format's view of it, rebased -/
+theorem innerSeen_view (m i : Msg) (base : Int) (h : wrapLat m = true → i.isV1 = true) :
+    innerSeen base (m.attrs % 4) (if m.isV1 then (if m.attrs / 8 % 2 = 1 then some m.ts else none) else none) i
+      = { innerView m i with offset := i.offset + base } := by
+  unfold innerSeen innerView wrapLat at *
+  cases hv : m.isV1
+  · simp
+  · by_cases hb : m.attrs / 8 % 2 = 1
+    · have := h (by simp [hv, hb])
+      simp [hb, this]
+    · simp [hb]
 
 end Proof.C06
